@@ -13,6 +13,7 @@
  mode "prefix":  (thorough) every prefix of a stream, then EOF, must end
                  cleanly.
 """
+import re
 import copy, json, os, random, shutil
 import host as H
 import proto
@@ -22,7 +23,7 @@ from model import parse_out
 from runner import ddmin
 import runner
 
-CRASH = ("C08",)
+CRASH = ("C08", "C10")     # a crash, sanitizer report, hang or unclean exit of a protocol run: both statements name it
 
 
 class RawResult(proto.Result):
@@ -81,6 +82,9 @@ def clean_exit_viol(ex, died, what):
         return Violation(CRASH, "unclean-exit", "%s: exit status %s, teardown %s, died at chunk %s: %s" %
                          (what, ex.rc, ex.teardown, died, ex.stderr[-200:]))
     return None
+
+
+IN_USE_RE = re.compile(rb"(\d+) in use")
 
 
 def segment(rnd, data, mode=None):
@@ -226,6 +230,13 @@ class BytesProfile:
                 while rnd.random() < 0.3:
                     prev_live = lines[n - 1][1] if n else []
                     junk_at.append([n, junk_line(rnd, prev_live).decode("latin1")])
+                w = l.split(b" ", 4)
+                if len(w) == 5 and w[1] in (b"X", b"x") and w[4].startswith(b":") and rnd.random() < 0.2:
+                    # a malformed reply right before the genuine one: same (awaited) service, same (current) tag,
+                    # but the reply text is missing, or the tag too
+                    junk_at.append([n, rnd.choice([b" ".join(w[:4]), b" ".join(w[:4]), b" ".join(w[:3]),
+                                                   b" ".join([w[0], b"X", w[2], w[3]]),
+                                                   b" ".join(w[:4]) + b" "]).decode("latin1")])
             plan.update({"lines": [l.decode("latin1") for l in S], "seg_seed": seg_seed, "junk": junk_at})
         else:
             data = b"".join(l + b"\n" for l in S[:rnd.choice([3, 6, 12])])
@@ -285,6 +296,13 @@ class BytesProfile:
                     res.viol.append(Violation("C08", "segmentation-changes-output",
                                               "same bytes, other read boundaries (%d reads, %d read faults): output differs: %s" %
                                               (len(chunks), len(faults), first_diff(A, b"".join(ob)))))
+                    ua, ub = IN_USE_RE.findall(A), IN_USE_RE.findall(b"".join(ob))
+                    if ua != ub:
+                        # run A's figures were checked against the model when the stream was recorded
+                        res.viol.append(Violation(("C10", "C08"), "in-use-differs-when-lines-share-a-read",
+                                                  "the same history reports %s requests in use when delivered a line per read and %s when "
+                                                  "several lines arrive in one read" % ([int(x) for x in ua][:12], [int(x) for x in ub][:12])))
+                res.extra["in_use_figures_compared"] = len(IN_USE_RE.findall(A))
                 res.extra.update({"segmented_runs": 1, "read_faults": len(faults), "reads": len(chunks)})
                 # C: junk interleaved, one line per read
                 seq = []
